@@ -122,10 +122,37 @@ impl Write {
     }
 }
 
+/// Harness actions that are neither notifications nor writes. None of them is a notification, so
+/// none may change the state the downlink holds.
+#[derive(Clone, Copy, Debug, PartialEq, Eq, Serialize, Deserialize)]
+pub enum Ctl {
+    /// Drop every write handle of the downlink. Client: all senders of the model's channel (the
+    /// task switches to its read-only loop). Hosted: the `*DownlinkHandle` (write stream ends, the
+    /// stop trigger is dropped untriggered).
+    DropWriters,
+    /// Client only: the runtime's end of the downlink's *output* channel goes away (writes fail;
+    /// the value task switches to its read-only loop). No-op for the hosted downlink (there a
+    /// failed write is a reconnect through a new downlink request, i.e. a new link).
+    DropOutput,
+    /// Hosted only: `handle.stop()`. No-op for the client (it has no such operation).
+    Stop,
+}
+
+impl Ctl {
+    pub fn name(&self) -> &'static str {
+        match self {
+            Ctl::DropWriters => "drop-writers",
+            Ctl::DropOutput => "drop-output",
+            Ctl::Stop => "handle-stop",
+        }
+    }
+}
+
 #[derive(Clone, Copy, Debug, PartialEq, Eq, Serialize, Deserialize)]
 pub enum DOp {
     N(Note),
     W(Write),
+    C(Ctl),
 }
 
 impl DOp {
@@ -133,6 +160,15 @@ impl DOp {
         match self {
             DOp::N(n) => n.name(),
             DOp::W(w) => w.name(),
+            DOp::C(c) => c.name(),
+        }
+    }
+
+    pub fn fits(&self, kind: Kind) -> bool {
+        match self {
+            DOp::N(n) => n.fits(kind),
+            DOp::W(w) => w.fits(kind),
+            DOp::C(_) => true,
         }
     }
 }
@@ -257,7 +293,11 @@ pub struct RefState {
     pub kind: Kind,
     pub ewns: bool,
     pub term: bool,
+    /// The reference is instantiated per implementation only for `Ctl::Stop` (hosted only).
+    pub hosted: bool,
     pub dead: bool,
+    /// The hosted handle has been dropped (a later `Stop` cannot be performed).
+    pub handle_dropped: bool,
     /// `Some` while linked.
     pub linked: Option<Linked>,
 }
@@ -283,12 +323,14 @@ pub struct Expect {
 }
 
 impl RefState {
-    pub fn new(kind: Kind, ewns: bool, term: bool) -> Self {
+    pub fn new(kind: Kind, ewns: bool, term: bool, hosted: bool) -> Self {
         RefState {
             kind,
             ewns,
             term,
+            hosted,
             dead: false,
+            handle_dropped: false,
             linked: None,
         }
     }
@@ -312,6 +354,26 @@ impl RefState {
             DOp::W(_) => {
                 // a local write is a command to the remote lane; it is not a notification and so
                 // must not change the state or fire a callback
+                return Expect { phase, accept: vec![vec![]], legal: true };
+            }
+            DOp::C(Ctl::Stop) if self.hosted && !self.handle_dropped && !self.dead => {
+                // "Instruct the downlink to stop": whether the loss of the link is reported is not
+                // fixed by the statement (the implementation reports on_unlinked when linked);
+                // afterwards the downlink is gone whatever terminate_on_unlinked says
+                let accept = if self.linked.is_some() {
+                    vec![vec![Cb::Unlinked], vec![]]
+                } else {
+                    vec![vec![]]
+                };
+                self.linked = None;
+                self.dead = true;
+                return Expect { phase, accept, legal: true };
+            }
+            DOp::C(c) => {
+                if *c == Ctl::DropWriters {
+                    self.handle_dropped = true;
+                }
+                // the statement does not depend on whether a writer exists
                 return Expect { phase, accept: vec![vec![]], legal: true };
             }
             DOp::N(n) => *n,
